@@ -718,6 +718,22 @@ def run(chk: Check, repo: Repo) -> None:
         definite_assignment(chk, m)
     chk.ob("no-recursion", tcp.site(), not (mr.recursive & {tcp.ref, udp.ref}) and not any(call_name(c) == "self.data_received_callback" for c in calls(tcp.node)) and not any(call_name(c) == "self.data_received_callback" for c in calls(udp.node)),
            f"the transport callbacks do not call themselves (recursive functions met below the entries: {sorted(mr.recursive)})", key="no-recursion")
+    # one protocol object per TCP connection, all reporting their loss to the same transport object: the report of an
+    # earlier connection may arrive after the next one is up (asyncio defers connection_lost while the write buffer
+    # drains) - it must not close the current connection
+    tcn = repo.func(TCP, "TCPTransport.connect")
+    chk.unit(tcn)
+    kwv = [k.value for c in calls(tcn.node) if call_name(c).endswith("TCPTransportFactory") for k in c.keywords if k.arg == "connection_lost_callback"]
+    ok_cl, why_cl = False, "the protocol is given self._connection_lost itself: the late loss report of an earlier connection stops the current one and its frames never reach the callbacks"
+    if len(kwv) == 1 and isinstance(kwv[0], ast.Name):
+        nested = [n for n in ast.walk(tcn.node) if isinstance(n, (ast.FunctionDef, ast.Lambda)) and getattr(n, "name", None) == kwv[0].id]
+        if len(nested) == 1:
+            ncfg = CFG(nested[0])
+            nmf = ncfg.must_facts()
+            cl = [n for n in ncfg.nodes if n.ast is not None and n.kind == "stmt" and any(call_name(c) == "self._connection_lost" for c in calls(n.ast))]
+            ok_cl = bool(cl) and all(any(v and " is self.transport" in a and ".transport" in a.split(" is ")[0] for a, v in nmf[n.id]) or any(v and a.startswith("self.transport is ") and a.endswith(".transport") for a, v in nmf[n.id]) for n in cl)
+            why_cl = "the protocol's loss callback calls self._connection_lost only while its own transport is the current one" if ok_cl else "the loss callback does not test that its connection is the current one"
+    chk.ob("only-the-current-connection-reports-its-loss", tcn.site(), ok_cl, f"TCPTransport.connect: {why_cl}", key="tcp|stale-connection-lost")
     tcp_stream_table(chk, repo, lbd)
     header_length_readable(chk, repo)
     udp_table(chk, repo)
